@@ -1,10 +1,12 @@
 from checks.common import Build, Job
+from checks import cross
 
 PROP = "C15"
 FLAVORS = ["memb", "mb", "qsbr", "bp"]
 BUILDS = [Build("gp_" + f, "harness/c01_gp.c", flavor=f, whitebox=True) for f in FLAVORS]
 CONFIGS = [("gp_memb", {"VRT_MEMBARRIER": 2}), ("gp_mb", {}), ("gp_qsbr", {}), ("gp_bp", {"VRT_MEMBARRIER": 2}),
            ("gp_bp", {"VRT_MEMBARRIER": 0})]
+BUILDS = BUILDS + cross.gp_builds()   # cross-property core jobs (checks/cross.py)
 RULE = ("every schedule (preemption / x86-TSO store-delay / fault / virtual-signal budget) of scenarios in which reader threads register, "
         "unregister, re-register, go offline/online (qsbr) or exit (bp) at every point of both scanning phases of a running "
         "synchronize_rcu(): rereg (two registrations around a grace period), leave_block (a thread that left then blocks forever must "
@@ -55,6 +57,9 @@ def jobs(tier):
             # signals cannot interrupt registration / thread exit
             for tgt, mr in ((1, 1), (1, 0), (2, 0), (3, 0)):
                 J.append(Job(b, "sig", "1,0,0,1", dict(p1, target=tgt, main_registered=mr, **cap), env, workers=8))
+    # the components this property's guarantee is built on, on the real code (checks/cross.py)
+    J += cross.sig_core(tier)
+    J += [j for j in cross.gp_core(tier) if j.scenario in ("merged", "qsbr")]
     return J
 
 
